@@ -222,3 +222,28 @@ Definition C03_cover_means :
   /\ (forall (B : Z -> Prop) lo hi a b seg rest, lo <= a -> a < b -> (forall l, lo <= l < a -> B l) -> ~ B a -> Forall (map_in a b) seg ->
         cseg B b hi rest -> cseg B lo hi (seg ++ rest))
   := conj (fun st l => conj (fun x => x) (fun x => x)) (conj cseg_nil cseg_cons).
+
+(* ---- leaf blocks end on a non-blank line ------------------------------------------------------------------- *)
+From MD Require Import Lemmas.LeafEnds.
+
+(* the paragraph rule, from any state, with any terminator callback that only answers, called on a non-blank line (which the
+   line loop guarantees: every rule-call range starts on a non-blank line, C03_block_parse_covers): its three tokens carry
+   the map [sl, nl) and EVERY line of that range is non-blank - in particular the last one *)
+Theorem C03_paragraph_ends_nonblank :
+  forall term, term_fr term -> forall st sl el st',
+  r_paragraph term st sl el false = Ok (true, st') -> is_empty st sl = Ok false ->
+  exists nl op inl cl,
+    b_tokens st' = b_tokens st ++ [op; inl; cl] /\ tmap op = Some (sl, nl) /\ tmap inl = Some (sl, nl) /\ b_line st' = nl
+    /\ sl < nl /\ (forall l, sl <= l < nl -> is_empty st l = Ok false).
+Proof. exact paragraph_ends_nonblank. Qed.
+Print Assumptions C03_paragraph_ends_nonblank.
+
+(* the indented-code rule: the map [sl, last) of its token ends on the last code line, which is non-blank (trailing blank
+   lines are not part of the block) *)
+Theorem C03_code_block_ends_nonblank :
+  forall cfg st sl el silent st',
+  r_code cfg st sl el silent = Ok (true, st') -> is_empty st sl = Ok false ->
+  exists last t, b_tokens st' = b_tokens st ++ [t] /\ tmap t = Some (sl, last) /\ b_line st' = last
+                 /\ sl < last /\ is_empty st (last - 1) = Ok false.
+Proof. exact code_block_ends_nonblank. Qed.
+Print Assumptions C03_code_block_ends_nonblank.
